@@ -9,6 +9,7 @@ import (
 	"net/http"
 	"net/url"
 	"strings"
+	"sync"
 	"testing"
 	"time"
 
@@ -142,6 +143,16 @@ type c10Case struct {
 	Op2    int    `json:"second_fault_at,omitempty"`
 	Fault2 string `json:"second_fault,omitempty"`
 	Logger string `json:"logger"`
+	// the first fault's operation as the fault-free run saw it: with it the
+	// fault is placed by (operation, key, occurrence) rather than by position,
+	// so that two runs of the same case strike the same logical operation even
+	// when the cache issues independent store operations concurrently
+	at *c10OpID
+}
+
+type c10OpID struct {
+	Op, Key string
+	Nth     int
 }
 
 func c10Vector(w *sim.World) []string {
@@ -162,7 +173,7 @@ func c10Vector(w *sim.World) []string {
 }
 
 // c10RunOnce executes a base with the given faults and judges it.
-func c10RunOnce(r *run.Runner, base *FuzzCase, c c10Case, judge bool) (nops int, opKinds []string, vec []string) {
+func c10RunOnce(r *run.Runner, base *FuzzCase, c c10Case, judge bool) (nops int, opIDs []c10OpID, vec []string) {
 	var logger *slog.Logger
 	if c.Logger == "debug" {
 		logger = slog.New(slog.NewJSONHandler(io.Discard, &slog.HandlerOptions{Level: slog.LevelDebug}))
@@ -179,8 +190,23 @@ func c10RunOnce(r *run.Runner, base *FuzzCase, c c10Case, judge bool) (nops int,
 	fail := r.Bubble(func() {
 		w := runFuzzCaseWith(base, sim.WorldOpt{Logger: logger}, func(w *sim.World) {
 			wref = w
+			var planMu sync.Mutex
+			seen := map[string]int{}
 			w.Store.Plan = func(seq int, op, key string) *sim.Fault {
+				planMu.Lock()
+				seen[op+"\x00"+key]++
+				nth := seen[op+"\x00"+key]
+				planMu.Unlock()
 				name, ok := faults[seq]
+				if c.at != nil {
+					// first fault by identity, a second one by position
+					name, ok = "", false
+					if op == c.at.Op && key == c.at.Key && nth == c.at.Nth {
+						name, ok = c.Fault, true
+					} else if c.Fault2 != "" && seq == c.Op2 {
+						name, ok = c.Fault2, true
+					}
+				}
 				if !ok {
 					return nil
 				}
@@ -261,8 +287,10 @@ func c10RunOnce(r *run.Runner, base *FuzzCase, c c10Case, judge bool) (nops int,
 		vec = c10Vector(w)
 		ops := w.Store.Ops(0)
 		nops = len(ops)
+		cnt := map[string]int{}
 		for _, o := range ops {
-			opKinds = append(opKinds, o.Op)
+			cnt[o.Op+"\x00"+o.Key]++
+			opIDs = append(opIDs, c10OpID{Op: o.Op, Key: o.Key, Nth: cnt[o.Op+"\x00"+o.Key]})
 		}
 	})
 	if fail != "" && judge {
@@ -340,7 +368,7 @@ func TestC10Faults(t *testing.T) {
 	idx := 0
 	for bi := range bases {
 		// fault-free run numbers the store operations
-		n, kinds, refVec := 0, []string(nil), []string(nil)
+		n, kinds, refVec := 0, []c10OpID(nil), []string(nil)
 		probe := c10Case{Base: bi, Logger: "discard"}
 		needProbe := true
 		for j := 0; needProbe || j < n; j++ {
@@ -359,7 +387,7 @@ func TestC10Faults(t *testing.T) {
 				}
 			}
 			for fi, f := range c10Faults {
-				if f.Ops != "*" && f.Ops != kinds[j] {
+				if f.Ops != "*" && f.Ops != kinds[j].Op {
 					continue
 				}
 				if !r.Thorough() && (j*31+fi*7+bi)%3 != 0 && bi >= 21 {
@@ -370,7 +398,7 @@ func TestC10Faults(t *testing.T) {
 				if !r.Mine(i) {
 					continue
 				}
-				c := c10Case{Base: bi, Random: bi >= 21, Op: j, Fault: f.Name, Logger: []string{"discard", "debug"}[i%2]}
+				c := c10Case{Base: bi, Random: bi >= 21, Op: j, Fault: f.Name, Logger: []string{"discard", "debug"}[i%2], at: &kinds[j]}
 				r.Begin(i, c)
 				_, _, vec := c10RunOnce(r, &bases[bi], c, true)
 				r.Nontrivial(fmt.Sprintf("%d|%d|%s", bi, j, f.Name))
@@ -390,7 +418,7 @@ func TestC10Faults(t *testing.T) {
 				if r.Thorough() && bi < 21 && (i%5 == 0) {
 					for j2 := j + 1; j2 < n; j2 += 3 {
 						f2 := c10Faults[(j2+fi)%len(c10Faults)]
-						if f2.Ops != "*" && f2.Ops != kinds[j2] {
+						if f2.Ops != "*" && f2.Ops != kinds[j2].Op {
 							continue
 						}
 						c2 := c
